@@ -120,8 +120,11 @@ def host_main(h, spec):
     ds_mod.shm_client.purge = purge
     real_recv2 = server.dlistener.recv_messages
 
+    idle_polls = [0]
+
     def recv2(timeout_ms=1000):
         ms = real_recv2(timeout_ms)
+        idle_polls[0] = 0 if ms else idle_polls[0] + 1     # consecutive polls in which this data server found its socket empty
         for m in ms:
             if isinstance(m, _Payload):
                 ev(f"recv-payload {m.header.ds.task} idx={m.header.confirm_idx}")
@@ -139,6 +142,24 @@ def host_main(h, spec):
         return cb_prev(address, msg)
     comms.callback = cb2
     ds_mod.callback = cb2
+    # the data server's own view of its unfinished transfers, published every 50 ms (read by the harness instead of guessing
+    # from silence whether a retransmission is still to come)
+    import threading as _thr
+    statefile = os.path.join(spec["tmp"], f"state-{h['id']}.json")
+
+    def publish_state():
+        n = 0
+        while True:
+            n += 1
+            try:
+                st = {"n": n, "awaiting": sorted(int(k) for k in list(server.awaiting_confirmation)), "futs": len(server.futs_in_progress), "idle_polls": idle_polls[0]}
+                with open(statefile + ".tmp", "w") as f:
+                    json.dump(st, f)
+                os.replace(statefile + ".tmp", statefile)
+            except Exception:  # noqa: BLE001 -- a dict changed size while being listed: next round
+                pass
+            time.sleep(0.05)
+    _thr.Thread(target=publish_state, daemon=True, name="verif-state").start()
     import faulthandler
     import signal
     faulthandler.register(signal.SIGUSR1, file=open(os.path.join(spec["tmp"], f"stacks-{h['id']}.txt"), "w"), all_threads=True)   # witness material on demand
@@ -184,7 +205,7 @@ def run_scenario(spec):
 
     # wait until every data server is up
     t0 = time.time()
-    while time.time() - t0 < 20:
+    while time.time() - t0 < 45:
         if all(os.path.exists(os.path.join(spec["tmp"], f"faults-{h['id']}.log")) for h in hosts):
             break
         time.sleep(0.02)
@@ -275,7 +296,7 @@ def run_scenario(spec):
     # data servers are still doing something (their fault / event logs grow: retransmissions every 4 virtual = 0.1 real
     # seconds) the harness keeps waiting; only when everything has been silent for QUIET_S (>= 15 confirmation graces) may a
     # transfer that is still missing be called lost. If the servers are still busy at the cap, the scenario is inconclusive.
-    QUIET_S, CAP_S = 1.5, spec.get("settle_cap_s", 45.0)
+    QUIET_S, CAP_S = 1.0, spec.get("settle_cap_s", 60.0)
     purges_sent: dict = {}
     for c in spec["commands"]:
         if c["op"] == "purge":
@@ -312,6 +333,39 @@ def run_scenario(spec):
             if i not in fetched:
                 n += 1
         return n
+    def still_owed():
+        """True while a data server has not yet taken one of the pending commands off its socket, or still lists it as awaiting
+        confirmation / in progress (it will retransmit): then silence means a starved machine, not a lost transfer."""
+        want = {}
+        for (i, t, src, dst) in transfers:
+            if (t, dst) not in held_before and not announcements.get((t, dst)) and (t, dst) not in purged_at and not ((t, src) in purged_at and not spec.get("source_purge_after_accept")):
+                want.setdefault(src, set()).add(i)
+        for (i, t, src) in fetches:
+            if i not in fetched:
+                want.setdefault(src, set()).add(i)
+        for src, idxs in want.items():
+            try:
+                got = {int(ln.split()[2]) for ln in open(os.path.join(spec["tmp"], f"events-{src}.log")) if " recv-DatasetTransmitCommand " in ln}
+            except (OSError, ValueError, IndexError):
+                got = set()
+            if idxs - got:
+                return True          # command still in the socket queue of a data server that has not been scheduled
+            try:
+                st = json.load(open(os.path.join(spec["tmp"], f"state-{src}.json")))
+            except (OSError, ValueError):
+                return True
+            if st["futs"] or (idxs & set(st["awaiting"])):
+                return True
+        # nobody owes a retransmission; but a payload that has been acknowledged (the Listener acks while it reads) may still be
+        # waiting to be stored: every data server must have found its socket empty in two consecutive polls with no job running
+        for h in hosts:
+            try:
+                st = json.load(open(os.path.join(spec["tmp"], f"state-{h['id']}.json")))
+            except (OSError, ValueError):
+                return True
+            if st["futs"] or st.get("idle_polls", 0) < 2:
+                return True
+        return False
     t_start = time.time()
     last_size, last_change = log_sizes(), time.time()
     still_active = False
@@ -322,8 +376,8 @@ def run_scenario(spec):
             last_size, last_change = sz, time.time()
         if not pending() and purges_done():
             break
-        if time.time() - last_change >= QUIET_S:
-            break          # silent for many confirmation graces: whatever is still missing will not come
+        if time.time() - last_change >= QUIET_S and not still_owed():
+            break          # silent for many confirmation graces and no data server still owes a transfer: what is missing will not come
         if time.time() - t_start > CAP_S:
             still_active = True
             break
